@@ -11,7 +11,7 @@ from vf import cst
 WS_CLASSES = ["none", "sp1", "spN", "tab", "nl", "nl_ind", "blank", "blankN", "blank_ws", "trail_nl"]
 LINE_COMMENT_CLASSES = ["eol_line", "own_line", "own_lines2", "own_line_blank_after", "own_line_blank_before", "own_lines2_same", "own_line_wsblank_after", "own_line_wsblank_before"]
 BLOCK_OWN_CLASSES = ["eol_block", "own_block", "own_doc", "own_mblock", "own_mblock_lead", "own_block2_same"]
-MID_CLASSES = ["mid_block", "mid_doc", "mid_mblock", "mid_block_tight", "mid_block2", "mid_block_then_line"]
+MID_CLASSES = ["mid_block", "mid_doc", "mid_mblock", "mid_block_tight", "mid_block2", "mid_block_then_line", "eol_line_then_block"]
 COMMENT_CLASSES = LINE_COMMENT_CLASSES + BLOCK_OWN_CLASSES + MID_CLASSES
 ALL_CLASSES = WS_CLASSES + COMMENT_CLASSES
 
@@ -141,6 +141,9 @@ def make_trivia(r: random.Random, cls: str, tag: str, indent: int):
         return _block_comment(r, tag, tight=True), 1
     if cls == "mid_block2":
         return " " + _block_comment(r, tag) + " " + _block_comment(r, tag + "x") + " ", 2
+    if cls == "eol_line_then_block":
+        # `tok # c` then `/* d */ next` on the following line: the block comment shares the line of the next token
+        return " " + _line_comment(r, tag) + "\n" + ind + _block_comment(r, tag + "x") + " ", 2
     if cls == "mid_block_then_line":
         return " " + _block_comment(r, tag) + " " + _line_comment(r, tag + "x") + "\n" + ind, 2
     raise ValueError(cls)
